@@ -71,6 +71,10 @@ class V1Parser:
         self.buffer = b""
         remaining = lines.pop()
         header = lines.pop()
+        if len(header) + len(self.NEWLINE) > 107:
+            # The line, terminator included, is at most 107 bytes long,
+            # however it is delivered.
+            raise InvalidProxyHeader()
         info = self.parse(header)
         return (info, remaining)
 
